@@ -7,7 +7,7 @@ props = [json.loads(l)['id'] for l in open(os.path.join(V, 'properties.jsonl'))]
 hooks = subprocess.run(['git', '-C', '/repo', 'log', '--format=%h %s'], stdout=subprocess.PIPE).stdout.decode().splitlines()
 hook_commits = [l.split()[0] for l in hooks if l.split(' ', 1)[1].startswith('verif hooks')]
 m = {"version": 1,
-     "setup_cmd": "python3 gen/build.py asan >/dev/null && python3 gen/build.py plain >/dev/null || true",
+     "setup_cmd": "for v in asan plain cov tsan; do python3 gen/build.py $v >/dev/null; done; true",
      "hooks": {"guard": "LIBHTP_VERIF",
                "enable": "checks compile /repo/htp/*.c + htp/lzma/*.c directly (gen/build.py, no autotools) with -DLIBHTP_VERIF; allocator/clock entry points of the library objects are renamed with -D to harness shims",
                "baseline_off_cmd": "./check baseline-off",
